@@ -88,6 +88,8 @@ def corpus_for(cfg):
                     out.append(c04.corpus_hash(s, r))
                 except ValueError:
                     pass
+        elif s in EXTRA_INT_OPTS:
+            out.append(c04.corpus_hash(s, EXTRA_INT_OPTS[s]["rounds"]))
         else:
             out.append(c04.corpus_hash(s, None))
     out.append("$1$abcdefgh$G//4keteveJp0qb8z2DxG/")
@@ -95,8 +97,22 @@ def corpus_for(cfg):
     return out
 
 
+# integer-valued options other than costs (they travel through INI text as strings like everything else)
+EXTRA_INT_OPTS = {"scrypt": dict(rounds=2, block_size=[1, 2, 4], parallelism=[1, 2, 3]), "fshp": dict(rounds=1, variant=[0, 1, 2, 3, "sha256"])}
+
+
 def gen_cfg(rng):
     cfg = c04.gen_cfg(rng)
+    if rng.random() < 0.25:
+        s = rng.choice(list(EXTRA_INT_OPTS))
+        has_wildcard = bool(cfg.get("all")) or any(c.get("all") for c in cfg["cats"].values())     # (a wildcard cost option would also apply to the added scheme)
+        if s not in cfg["schemes"] and "plaintext" not in cfg["schemes"] and not has_wildcard:
+            cfg["schemes"].append(s)
+            o = {"rounds": EXTRA_INT_OPTS[s]["rounds"]}
+            for k, vals in EXTRA_INT_OPTS[s].items():
+                if k != "rounds" and rng.random() < 0.7:
+                    o[k] = rng.choice(vals)
+            cfg["opts"][s] = o
     # C10 extras: float / percent vary_rounds, string-typed numbers are applied by the rendering style
     for s in cfg["schemes"]:
         if s in c04.ROUNDS and H.get(s).rounds_cost == "linear" and rng.random() < 0.3 and "rounds" not in cfg["opts"].get(s, {}):
